@@ -17,8 +17,6 @@ Adaptations of the reused clauses (each with its reason, none weakens what the p
    through cspec_same32 / cspec_samev32: same predicate, the scalar overload is evaluated once instead of 3-5 times;
  * C01 spells the decrement clause SPEC_FSUB32(a, 1.0f); clang canonicalises x - 1.0f to fadd x, -1.0f in BOTH builds, and
    IEEE x - c == x + (-c), so the clause is re-spelt SPEC_FADD32(a, -1.0f) (same value, same abstraction as the code);
- * abs(ivec4): the pure code (x ^ (x >> 31)) - (x >> 31) overflows (undefined) for INT_MIN, there is no pure value to compare
-   with: requires x != INT_MIN (the documented domain of abs);
  * SSE2 floor/ceil/round/fract/mod/...(vec4): + and - are not abstracted (the (x + 2^23) - 2^23 fallback needs exact adders).
 Everything that is not claimed is listed in EXCLUDE with its reason and repeated in P.not_covered."""
 import importlib, re, copy
@@ -47,8 +45,8 @@ EXCLUDE = [
      'equivalence with the 32-bit product is not decided reliably (z3 answered the vv forms at SSE4.1 in 25-81 s in one run and hit the 900 s '
      'timeout in another, the vs/sv forms and SSE2 never; SAT never): undecided, not refuted; the T-check compares these shims natively'),
     (r'^glm_mod_f32_v[vs]_v4$', r'^sse2$',
-     'mod(vec4) at SSE2: x - y * floor(x / y) in the pure order, with the (x + 2^23) - 2^23 floor: the relational abstraction of * and / fails (a NaN '
-     'quotient reaches the uninterpreted product with a different payload on the two sides) and the exact multiplier/divider instance times out; '
+     'mod(vec4) at SSE2: x - y * floor(x / y) in the pure order, with the (x + 2^23) - 2^23 floor: the relational abstraction of * and / fails (cause not isolated; '
+     'presumably a NaN quotient reaches the uninterpreted product with different payloads on the two sides) and the exact multiplier/divider instance times out; '
      'undecided, not refuted: the SSE2 floor itself is claimed (glm_floor/ceil/fract_f32_v_v4), mod is claimed at SSE4.1/AVX2'),
     (r'^glm_dot_bits_v4_f32$', r'^sse2$',
      'bit-exact evaluation order of dot(vec4): at SSE2 glm_vec1_dot adds (x*x+z*z)+(y*y+w*w), the pure code (x*x+y*y)+(z*z+w*w); the property '
@@ -145,9 +143,6 @@ def adapt(modname, c2, isa):
             # the SSE2 fallback of glm_vec4_round is (x + 2^23) - 2^23: it only means something with exact adders, so + and - are not
             # abstracted here (* and / still are, on both sides)
             c2.uf_float = tuple(u for u in c2.uf_float if u not in ('fadd', 'fsub'))
-        if re.match(r'^glm_abs_i32_v_v\d$', c2.fn):
-            L = int(c2.fn[-1])
-            req.append(('not_int_min', ' && '.join('a%d != 0x80000000u' % i for i in range(L))))
     c2.ensures, c2.requires = ens, req
 
 
